@@ -99,6 +99,9 @@ def run(chk):
     for i in range(chk.scale(250, 3000)):
         sources.append((gen_c.program(rng, placement=rng.choice(["zp", "mixed", "abs"]), shorts=rng.random() < 0.55,
                                       inline_rate=0.6, gotos=True, probe=('lte16', 'zero-compare', 'reg-compare')).text, ()))
+    # every kind of assignable operand x assignment form x right operand, one statement per program (tools/idioms.py)
+    import idioms
+    sources += [(idioms.wrap(st), ()) for st in idioms.statements()]
     nfun = 0
     for (src, defs) in sources:
         for level in (0, 1):
